@@ -55,6 +55,8 @@ ORIG_EXPECT = [
     ("C19", "R19.1", "pkt_line"), ("C19", "R19.4", "_read_side_band64k_data"), ("C19", "R19.5", "read_pkt_seq"),
     ("C20", "R20.1", "_escape_value"), ("C20", "R20.2", "_format_string"), ("C20", "R20.3", "_strip_comments"),
     ("C11", "R11.5", "_encode_varint"), ("C11", "R11.5", "_decompress_path_from_stream"), ("C19", "R19.2", "read_pkt_line"),
+    ("C04", "R04.10", "add_thin_pack"), ("C04", "R04.10", "commit"),
+    ("C14", "R14.6", "_combine_commit_bitmaps"), ("C14", "R14.6", "GraphTraversalReachability.get_reachable_objects"),
     ("C13", "R13.3", "_find_lcas"), ("C20", "R20.5", "_escape_value"), ("C06", "R06.5", "DiskRefsContainer.set_if_equals"),
 ]
 
@@ -114,6 +116,102 @@ def _run_variant(v):
         return v["id"], "ok", "silent"
 
 
+def apply_unified_diff(files: dict, diff_text: str):
+    """Apply a unified diff (git format, text files) to {relative path: source}; returns {path: new source} for the files
+    it touches or None when a hunk does not match the current text exactly."""
+    out = {}
+    cur = None
+    lines = diff_text.splitlines(keepends=True)
+    i = 0
+    hunks = {}
+    while i < len(lines):
+        ln = lines[i]
+        if ln.startswith("+++ "):
+            path = ln[4:].strip()
+            cur = path[2:] if path.startswith("b/") else path
+            hunks[cur] = []
+        elif ln.startswith("@@") and cur is not None:
+            import re
+            m_ = re.match(r"@@ -(\d+)(?:,(\d+))? \+(\d+)(?:,(\d+))? @@", ln)
+            old_start = int(m_.group(1))
+            body = []
+            i += 1
+            while i < len(lines) and not lines[i].startswith(("@@", "diff --git", "--- ", "+++ ")):
+                if lines[i].startswith("\\"):
+                    i += 1
+                    continue
+                body.append(lines[i])
+                i += 1
+            hunks[cur].append((old_start, body))
+            continue
+        i += 1
+    for path, hs in hunks.items():
+        src = files(path)
+        if src is None:
+            return None
+        sl = src.splitlines(keepends=True)
+        res, pos = [], 0
+        for old_start, body in hs:
+            want_old = [b[1:] for b in body if b[:1] in (" ", "-")]
+            new = [b[1:] for b in body if b[:1] in (" ", "+")]
+            # locate the old block at its line number, or search nearby (the tree may have drifted by a few lines)
+            cand = [old_start - 1] + [old_start - 1 + d for k in range(1, 200) for d in (k, -k)]
+            at = next((c for c in cand if c >= pos and sl[c:c + len(want_old)] == want_old), None)
+            if at is None:
+                return None
+            res.extend(sl[pos:at])
+            res.extend(new)
+            pos = at + len(want_old)
+        res.extend(sl[pos:])
+        out[path] = "".join(res)
+    return out
+
+
+def _seed_variants(prop=None):
+    """Seeded changes (seeded/<id>/patch.diff) as breaking variants, applied in memory."""
+    out = []
+    sd = os.path.join(VERIF, "seeded")
+    for sid in sorted(os.listdir(sd)) if os.path.isdir(sd) else []:
+        mp = os.path.join(sd, sid, "meta.json")
+        pp = os.path.join(sd, sid, "patch.diff")
+        if not (os.path.isfile(mp) and os.path.isfile(pp)):
+            continue
+        meta = json.load(open(mp))
+        if prop is not None and meta.get("property") != prop:
+            continue
+        out.append(dict(id=sid, prop=meta["property"], kind="seeded", patch=pp))
+    return out
+
+
+def _run_seed(v):
+    from sa.load import REPO
+
+    def files(rel):
+        try:
+            return open(os.path.join(REPO, rel), encoding="utf-8").read()
+        except OSError:
+            return None
+    ov = apply_unified_diff(files, open(v["patch"], encoding="utf-8").read())
+    if ov is None:
+        return v["id"], "skipped", "patch does not apply to the current tree"
+    for rel, src in ov.items():
+        if rel.endswith(".py"):
+            try:
+                compile(src, rel, "exec")
+            except SyntaxError as e:
+                return v["id"], "broken-variant", f"does not compile: {e}"
+    base, err0 = _violations(v["prop"], None)
+    if err0:
+        return v["id"], "error", "baseline: " + err0
+    got, err = _violations(v["prop"], ov)
+    if err:
+        return v["id"], "fail", f"checker could not analyse the seeded change ({err})"
+    new = sorted(got - base)
+    if new:
+        return v["id"], "ok", f"reported {new[0][0]} at {new[0][1]}"
+    return v["id"], "fail", f"seeded change of {v['prop']} is not reported by the {v['prop']} check"
+
+
 def _orig_tree():
     """A checkout of the pinned original commit in a temp dir (removed by the caller)."""
     from sa.load import REPO
@@ -144,6 +242,11 @@ def main():
     with ProcessPoolExecutor(max_workers=a.jobs) as ex:
         for r in ex.map(_run_variant, vs):
             results.append(r)
+    seeds = _seed_variants(a.prop)
+    with ProcessPoolExecutor(max_workers=a.jobs) as ex:
+        for r in ex.map(_run_seed, seeds):
+            results.append(r)
+    vs = vs + seeds
     bad = 0
     per_prop = {}
     for v, (vid, status, msg) in zip(vs, results):
